@@ -372,11 +372,20 @@ impl Archive {
         // Get file size
         let file_size = file.metadata()?.len();
 
+        if file_size < 8 {
+            anyhow::bail!("Archive too small to contain a footer ({file_size} bytes)");
+        }
+
         // Read footer size (last 8 bytes)
         file.seek(SeekFrom::End(-8))?;
         let mut footer_size_bytes = [0u8; 8];
         file.read_exact(&mut footer_size_bytes)?;
         let footer_size = u64::from_le_bytes(footer_size_bytes);
+        if footer_size > file_size - 8 {
+            anyhow::bail!(
+                "Invalid archive footer size {footer_size} (file has {file_size} bytes): truncated or not an AGC archive"
+            );
+        }
 
         // Seek to start of footer
         file.seek(SeekFrom::Start(file_size - 8 - footer_size))?;
